@@ -134,3 +134,95 @@ func init() {
 		return tuple{v, true}
 	}
 }
+
+// ---- bytes.Buffer as a rope ----
+//
+// bytes.Buffer copies byte by byte into a slice it grows itself, which cannot be done with strings of
+// symbolic length. A buffer is therefore kept as the rope of everything written to it and not yet read
+// (side table keyed by the buffer's address); the writing and whole-content methods are modelled,
+// everything else (partial reads, UnreadByte, ...) is outside the model.
+func init() {
+	bufOf := func(fr *frame, recv value) *symStr {
+		p, ok := recv.(*value)
+		if !ok || p == nil {
+			panic(targetPanic{iface{t: types.Typ[types.String], v: "runtime error: invalid memory address or nil pointer dereference"}})
+		}
+		i := fr.i
+		if i.byteBuffers == nil {
+			i.byteBuffers = map[*value]*symStr{}
+		}
+		b := i.byteBuffers[p]
+		if b == nil {
+			b = &symStr{}
+			i.byteBuffers[p] = b
+		}
+		return b
+	}
+	write := func(fr *frame, args []value) value {
+		b := bufOf(fr, args[0])
+		r := toRope(args[1])
+		b.p = normRope(append(append([]piece{}, b.p...), r.p...))
+		return tuple{ropeLen(r), nilErr()}
+	}
+	intrinsics["(*bytes.Buffer).WriteString"] = write
+	intrinsics["(*bytes.Buffer).Write"] = write
+	intrinsics["(*bytes.Buffer).WriteByte"] = func(fr *frame, args []value) value {
+		b := bufOf(fr, args[0])
+		switch c := args[1].(type) {
+		case uint8:
+			b.p = normRope(append(append([]piece{}, b.p...), piece{k: pLit, lit: string([]byte{c})}))
+		case symBV:
+			b.p = append(append([]piece{}, b.p...), piece{k: pByte, t: c.t})
+		default:
+			panic(abortPath{why: "bytes.Buffer.WriteByte operand", kind: "unsupported"})
+		}
+		return nilErr()
+	}
+	intrinsics["(*bytes.Buffer).WriteRune"] = func(fr *frame, args []value) value {
+		b := bufOf(fr, args[0])
+		r, ok := args[1].(int32)
+		if !ok {
+			panic(abortPath{why: "bytes.Buffer.WriteRune of a symbolic rune", kind: "unsupported"})
+		}
+		s := string(rune(r))
+		b.p = normRope(append(append([]piece{}, b.p...), piece{k: pLit, lit: s}))
+		return tuple{len(s), nilErr()}
+	}
+	intrinsics["(*bytes.Buffer).String"] = func(fr *frame, args []value) value {
+		if p, ok := args[0].(*value); ok && p == nil {
+			return "<nil>"
+		}
+		b := bufOf(fr, args[0])
+		return ropeVal(symStr{p: append([]piece{}, b.p...)})
+	}
+	intrinsics["(*bytes.Buffer).Bytes"] = func(fr *frame, args []value) value {
+		b := bufOf(fr, args[0])
+		return bytesValue(symStr{p: append([]piece{}, b.p...)})
+	}
+	intrinsics["(*bytes.Buffer).Len"] = func(fr *frame, args []value) value {
+		b := bufOf(fr, args[0])
+		return ropeLen(*b)
+	}
+	intrinsics["(*bytes.Buffer).Reset"] = func(fr *frame, args []value) value {
+		bufOf(fr, args[0]).p = nil
+		return nil
+	}
+	intrinsics["(*bytes.Buffer).Grow"] = func(fr *frame, args []value) value { return nil }
+	newBuf := func(fr *frame, args []value) value {
+		t := fr.i.prog.ImportedPackage("bytes").Type("Buffer").Type()
+		var cell value = zero(t)
+		p := &cell
+		r := toRope(args[0])
+		b := bufOf(fr, p)
+		b.p = normRope(append([]piece{}, r.p...))
+		return p
+	}
+	for _, m := range []string{"Read", "ReadByte", "ReadRune", "ReadString", "ReadBytes", "Next", "Truncate", "ReadFrom", "WriteTo", "UnreadByte", "UnreadRune", "Cap", "Available", "AvailableBuffer"} {
+		m := m
+		intrinsics["(*bytes.Buffer)."+m] = func(fr *frame, args []value) value {
+			panic(abortPath{why: "bytes.Buffer." + m + " is outside the buffer model", kind: "unsupported"})
+		}
+	}
+	intrinsics["bytes.NewBuffer"] = newBuf
+	intrinsics["bytes.NewBufferString"] = newBuf
+}
